@@ -16,41 +16,41 @@ import (
 // external callees that mutate their receiver / an argument (index given,
 // receiver = 0), one line of reason each.
 var extMutators = map[string][]int{
-	"(*container/list.List).PushFront":    {0},
-	"(*container/list.List).PushBack":     {0},
-	"(*container/list.List).MoveToFront":  {0, 1},
-	"(*container/list.List).MoveToBack":   {0, 1},
-	"(*container/list.List).MoveBefore":   {0, 1},
-	"(*container/list.List).MoveAfter":    {0, 1},
-	"(*container/list.List).Remove":       {0, 1},
-	"(*container/list.List).Init":         {0},
-	"(*container/list.List).InsertBefore": {0},
-	"(*container/list.List).InsertAfter":  {0},
-	"(*container/list.List).PushBackList": {0},
+	"(*container/list.List).PushFront":     {0},
+	"(*container/list.List).PushBack":      {0},
+	"(*container/list.List).MoveToFront":   {0, 1},
+	"(*container/list.List).MoveToBack":    {0, 1},
+	"(*container/list.List).MoveBefore":    {0, 1},
+	"(*container/list.List).MoveAfter":     {0, 1},
+	"(*container/list.List).Remove":        {0, 1},
+	"(*container/list.List).Init":          {0},
+	"(*container/list.List).InsertBefore":  {0},
+	"(*container/list.List).InsertAfter":   {0},
+	"(*container/list.List).PushBackList":  {0},
 	"(*container/list.List).PushFrontList": {0},
-	"sort.Strings":                        {0},
-	"sort.Slice":                          {0},
-	"sort.Sort":                           {0},
-	"sort.Stable":                         {0},
-	"sort.SliceStable":                    {0},
-	"sort.Ints":                           {0},
-	"(net/http.Header).Set":               {0},
-	"(net/http.Header).Add":               {0},
-	"(net/http.Header).Del":               {0},
-	"(net/url.Values).Set":                {0},
-	"(net/url.Values).Add":                {0},
-	"(net/url.Values).Del":                {0},
-	"(*bytes.Buffer).Write":               {0},
-	"(*bytes.Buffer).WriteString":         {0},
-	"(*bytes.Buffer).Reset":               {0},
-	"(*strings.Builder).WriteString":      {0},
-	"(*sync.Map).Store":                   {0},
-	"(*sync.Map).Delete":                  {0},
-	"(*sync.Map).LoadOrStore":             {0},
-	"sync/atomic.AddInt32":                {0},
-	"sync/atomic.AddInt64":                {0},
-	"sync/atomic.StoreInt32":              {0},
-	"sync/atomic.StoreInt64":              {0},
+	"sort.Strings":                         {0},
+	"sort.Slice":                           {0},
+	"sort.Sort":                            {0},
+	"sort.Stable":                          {0},
+	"sort.SliceStable":                     {0},
+	"sort.Ints":                            {0},
+	"(net/http.Header).Set":                {0},
+	"(net/http.Header).Add":                {0},
+	"(net/http.Header).Del":                {0},
+	"(net/url.Values).Set":                 {0},
+	"(net/url.Values).Add":                 {0},
+	"(net/url.Values).Del":                 {0},
+	"(*bytes.Buffer).Write":                {0},
+	"(*bytes.Buffer).WriteString":          {0},
+	"(*bytes.Buffer).Reset":                {0},
+	"(*strings.Builder).WriteString":       {0},
+	"(*sync.Map).Store":                    {0},
+	"(*sync.Map).Delete":                   {0},
+	"(*sync.Map).LoadOrStore":              {0},
+	"sync/atomic.AddInt32":                 {0},
+	"sync/atomic.AddInt64":                 {0},
+	"sync/atomic.StoreInt32":               {0},
+	"sync/atomic.StoreInt64":               {0},
 }
 
 // external callees known not to write through a shared argument.
@@ -930,7 +930,7 @@ func rulePhase(rule string) func(r *Run) {
 func init() {
 	register(&property{
 		Meta: propertyMeta{
-			ID: "C03",
+			ID:          "C03",
 			Explanation: "Structural half of race-freedom, decided for all schedules at once: (C03-EFF) every memory-writing instruction (store, map update/delete, copy, receiver-mutating library call) in every function reachable from the request-phase roots is classified by the root of its destination; a write to router-shared memory is accepted only inside cachedRoutes methods under the exclusive lock. (C03-APPEND) no append onto a shared slice in the request phase. (C03-LOCK) lock-set analysis of every cachedRoutes method: reads of list/hashMap need R or W, mutations need W, every acquisition has the matching release on every exit, cache internals are not touched outside the methods. (C03-POOL) typestate of the pooled context: Get -> Init before any use, Put only of a value obtained from Get in the same function, Put is the last use and never deferred. (PHASE) the router's request path never calls registration code or compiles patterns.",
 			NotDecided: []string{
 				"anything user handlers do (dynamic calls through HandlerFunc values are the stated boundary)",
